@@ -126,10 +126,12 @@ static const std::uint64_t K_3lvl[] = {0x0000000000000000ULL, 0x0000000000000001
 // sparse: differ in the first byte (no prefix at root)
 static const std::uint64_t K_sparse[] = {0x0000000000000000ULL, 0x8000000000000000ULL, 0xFF00000000000000ULL};
 
+// value of prelude entry i: byte i+1 repeated vlen(i) times, vlen cycles through 1, 0, 2 (empty values included)
+static unsigned vlen(unsigned i) { return i % 3 == 0 ? 1 : (i % 3 == 1 ? 0 : 2); }
 static void build(db_t& d, const std::uint64_t* keys, unsigned n) {
   for (unsigned i = 0; i < n; i++) {
-    std::uint8_t v = static_cast<std::uint8_t>(i + 1);
-    bool r = d.insert(keys[i], vv(&v, 1));
+    std::uint8_t v[2] = {static_cast<std::uint8_t>(i + 1), static_cast<std::uint8_t>(i + 1)};
+    bool r = d.insert(keys[i], vv(v, vlen(i)));
     PROP(r, "C01: prelude insert of a fresh key succeeds");
   }
 }
@@ -144,7 +146,7 @@ static void probe_all(db_t& d, const std::uint64_t* keys, unsigned n, std::uint6
     got g = do_get(d, keys[i]);
     const bool gone = did_remove && keys[i] == removed;
     PROP(g.found == !gone, "C01: an operation on one key leaves every other entry in place");
-    if (g.found) PROP(g.size == 1 && g.b[0] == static_cast<std::uint8_t>(i + 1), "C01: ... and leaves its value unchanged");
+    if (g.found) PROP(g.size == vlen(i) && (g.size == 0 || g.b[0] == static_cast<std::uint8_t>(i + 1)) && (g.size < 2 || g.b[1] == static_cast<std::uint8_t>(i + 1)), "C01: ... and leaves its value (length 0, 1 or 2) unchanged");
     OBSERVE(g.found);
   }
 }
@@ -157,8 +159,8 @@ template <unsigned N> static void cat_insert(const std::uint64_t (&keys)[N]) {
   const bool r = d.insert(k, vv(&v, 1));
   PROP(r == (idx < 0), "C01: insert succeeds iff the key is absent");
   got g = do_get(d, k);
-  PROP(g.found && g.size == 1, "C01: an inserted key is found");
-  PROP(g.b[0] == (idx < 0 ? v : static_cast<std::uint8_t>(idx + 1)), "C01: get yields the bytes of the insert that created the entry");
+  PROP(g.found && g.size == (idx < 0 ? 1u : vlen(static_cast<unsigned>(idx))), "C01: an inserted key is found with the value length of the creating insert");
+  PROP(g.size == 0 || g.b[0] == (idx < 0 ? v : static_cast<std::uint8_t>(idx + 1)), "C01: get yields the bytes of the insert that created the entry");
   probe_all(d, keys, N, 0, false);
   PROP(!d.empty(), "C01: empty() iff no entries");
   OBSERVE(r); OBSERVE(g.b[0]);
@@ -186,7 +188,7 @@ template <unsigned N> static void cat_get(const std::uint64_t (&keys)[N]) {
   const int idx = idx_of(keys, N, k);
   got g = do_get(d, k);
   PROP(g.found == (idx >= 0), "C01: get finds a key iff it was inserted");
-  if (g.found) PROP(g.size == 1 && g.b[0] == static_cast<std::uint8_t>(idx + 1), "C01: get yields the bytes of the insert that created the entry");
+  if (g.found) PROP(g.size == vlen(static_cast<unsigned>(idx)) && (g.size == 0 || g.b[0] == static_cast<std::uint8_t>(idx + 1)), "C01: get yields the bytes of the insert that created the entry");
   OBSERVE(g.found); OBSERVE(g.b[0]);
   qstate();
   WITNESS();
